@@ -249,6 +249,14 @@ func serverScenario(cfg SrvCfg) func() {
 		exec := kmipserver.NewBatchExecutor()
 		exec.Route(kmip.OperationActivate, kmipserver.HandleFunc(w.handler))
 		w.srv = kmipserver.NewServer(w.lis, exec)
+		if cfg.ConnHook != "" {
+			w.srv = w.srv.WithConnectHook(func(ctx context.Context) (context.Context, error) {
+				if cfg.ConnHook == "fail" {
+					return nil, errors.New("connect hook refuses the connection")
+				}
+				return ctx, nil
+			})
+		}
 		var serveRet mc.Var[int]
 		mc.GoNamed("serve", func() {
 			err := w.srv.Serve()
@@ -287,6 +295,9 @@ func init() {
 	srv("srv-req-close-smallpipe", "one request into a 16-byte pipe nobody reads, then close (write loop blocked mid-response)", SrvCfg{PipeCap: 16, Conns: [][]Op{{W("ok1"), OpClose}}})
 	srv("srv-size-history", "three sequential requests whose sizes are chosen from 8 sizes each (all 512 size histories), then a second connection is served", SrvCfg{Conns: [][]Op{{{K: "Z", IDs: []string{"ok1"}}, {K: "Z", IDs: []string{"ok2"}}, {K: "Z", IDs: []string{"ok3"}}, OpClose}}})
 	srv("srv-stray-response", "the client sends a well-formed response message (ignored by the server), then a request that must be answered, then another stray response and a request", SrvCfg{Conns: [][]Op{{{K: "P"}, W("ok1"), R("ok1"), {K: "P"}, {K: "P"}, W("terr2"), R("terr2"), OpClose}}})
+	srv("srv-hookfail-req", "the connect hook refuses the connection; the client sends a request all the same and must see the connection closed, nothing may stay behind", SrvCfg{ConnHook: "fail", Conns: [][]Op{{W("ok1"), OpEOF}}})
+	srv("srv-hookfail-2conn", "two refused connections, one sending a request and waiting for the end of stream, one closing at once", SrvCfg{ConnHook: "fail", Conns: [][]Op{{W("ok1"), OpEOF}, {OpClose}}})
+	srv("srv-hookok-seq", "accepting connect hook, two sequential requests", SrvCfg{ConnHook: "ok", Conns: [][]Op{{W("ok1"), R("ok1"), W("perr2"), R("perr2"), OpClose}}})
 	srv("srv-two-seq", "two sequential requests on one connection", SrvCfg{Conns: [][]Op{{W("ok1"), R("ok1"), W("terr2"), R("terr2"), OpClose}}})
 	srv("srv-pipelined", "two requests in one write, then read both", SrvCfg{Conns: [][]Op{{{K: "2", IDs: []string{"ok1", "perr2"}}, R("ok1", "perr2"), OpClose}}})
 	srv("srv-3pipelined-close", "three requests written back to back, then close without reading anything (requests still queued in the connection when it ends)", SrvCfg{Conns: [][]Op{{W("ok1"), W("ok2"), W("ok3"), OpClose}}})
